@@ -44,6 +44,10 @@ impl BitSet {
     #[verifier::external_body]
     pub fn new() -> (r: BitSet) ensures r@ == Set::<u32>::empty() { unimplemented!() }
 }
+impl Default for BitSet {
+    #[verifier::external_body]
+    fn default() -> (r: BitSet) ensures r@ == Set::<u32>::empty() { unimplemented!() }
+}
 impl Clone for BitSet {
     #[verifier::external_body]
     fn clone(&self) -> (r: BitSet) ensures r@ == self@ { unimplemented!() }
